@@ -18,8 +18,9 @@
       depend on the secret bytes, so the one execution per public shape that the check performs on
       the regenerated program (tjminic, all data bytes labelled secret) decides it for ALL keys,
       messages, tags, passwords and entropy of that shape.
-  Not proved: that no public shape exists on which the monitor raises `taint` (the check executes a
-  finite family of shapes); that gcc/clang preserve the property (observed with valgrind on the
+  That no public shape exists on which the monitor raises `taint` is proved for the main entry points in
+  TJ.Props.C07Gen (corollaries of the functional theorems on the regenerated terms); for the others the check
+  executes a finite family of shapes.  Not proved: that gcc/clang preserve the property (observed with valgrind on the
   optimised objects).
 -/
 import TJ.MiniC.NI
